@@ -4,6 +4,7 @@
 //	memodrv sched -universe U -in schedules.ndjson -out T [-seed N] [-stats S]
 //	    forces every TLC-enumerated schedule (spec/Memo.tla) on the real memoizer through the verifYield
 //	    hook; the plain answers are read from the wrapped memory graph at every instant
+//	memodrv keys  -universe U -out T [-every N]   cache-key injectivity sweep (see runKeys)
 //	memodrv seq   -universe U -out T -runs R -steps N [-faults] [-seed N] [-stats S]
 //	    single-goroutine lock-step histories on memoization.New(store) and a plain twin memory store:
 //	    all Graph methods, all option shapes (window, filters, LatestAnchor, MaxElements, Offset), two
@@ -624,6 +625,110 @@ func runSeq(runs, steps int, faults bool) {
 	}
 }
 
+// runKeys: cache-key injectivity sweep. For every lookup method a fresh memoizing store holding the whole
+// universe; every combination of arguments (all universe values, stored or not) and a grid of option shapes
+// is read once through ONE handle, in lock-step with a plain twin store. Two different requests that the
+// memoizer maps to one key are exposed when the second is answered with the cached answer of the first.
+// every: keep one argument tuple in `every` (seeded), 1 = all.
+func runKeys(every int) {
+	if hookAvailable {
+		installHook(gate)
+		recMode = true
+	}
+	ni := len(u.Instants)
+	type shape struct {
+		lo, hi   int
+		fop, ff  string
+		la       bool
+		max, off int
+	}
+	var base []shape
+	for lo := 0; lo <= ni; lo++ {
+		for hi := 0; hi <= ni; hi++ {
+			base = append(base, shape{lo: lo, hi: hi, ff: "predicate"})
+		}
+	}
+	for _, op := range []string{"latest", "isTemporal", "isImmutable", "bogus"} {
+		for _, f := range []string{"predicate", "object", "subject"} {
+			base = append(base, shape{fop: op, ff: f})
+		}
+	}
+	base = append(base, shape{la: true, ff: "predicate"}, shape{la: true, fop: "latest", ff: "predicate"}, shape{la: true, lo: 2, ff: "predicate"})
+	pages := [][2]int{{0, 0}, {1, 0}, {1, 1}, {1, 2}, {2, 0}, {2, 1}, {3, 0}}
+	run := 0
+	all := make([]int, u.NT())
+	for i := range all {
+		all[i] = i + 1
+	}
+	for _, m := range storeops.Methods {
+		run++
+		ms := memoization.New(memory.NewStore())
+		twin := memory.NewStore()
+		h, err := ms.NewGraph(ctx, gname)
+		must(err)
+		pg, err := twin.NewGraph(ctx, gname)
+		must(err)
+		must(h.AddTriples(ctx, storeops.Batch(u, all)))
+		must(pg.AddTriples(ctx, storeops.Batch(u, all)))
+		c := listing(pg)
+		tw.Emit(event{Ev: "Reset", Mode: "seq", Run: run, B: []int{}, Res: []int{}, Fault: -1, Pl: []plE{}, C: c, Q: qx{Q: storeops.Q{M: m.Name}}})
+		ss, ps, os_ := []int{0}, []int{0}, []int{0}
+		if m.S {
+			ss = seq(len(u.Nodes))
+		}
+		if m.P {
+			ps = seq(len(u.CPreds))
+		}
+		if m.O {
+			os_ = seq(len(u.Objs))
+		}
+		for _, sv := range ss {
+			for _, cp := range ps {
+				for _, ov := range os_ {
+					if every > 1 && rng.Intn(every) != 0 {
+						continue
+					}
+					for _, sh := range base {
+						for _, pgn := range pages {
+							q := mkQ(m.Name, m.C, sv, cp, ov)
+							q.Lo, q.Hi, q.Fop, q.La, q.Max, q.Off = sh.lo, sh.hi, sh.fop, sh.la, pgn[0], pgn[1]
+							if sh.ff != "" {
+								q.Ff = sh.ff
+							}
+							recMu.Lock()
+							recPts = nil
+							recMu.Unlock()
+							res, er := read(h, q)
+							pr, pe := read(pg, q)
+							pts := append(append([]string{}, recPts...), "ret")
+							for i, at := range pts {
+								e := event{Ev: "G", Mode: "seq", Run: run, Pid: 1, At: at, First: i == 0, Kind: "r", H: 1, B: []int{}, Q: q,
+									Res: []int{}, Fault: -1, Pl: []plE{{Pid: 1, Res: pr, Err: pe}}, C: c}
+								if at == "ret" {
+									e.Res, e.Err = trace.Ints(res), er
+								}
+								tw.Emit(e)
+							}
+							stats["key_reads"]++
+							if len(pts) == 1 {
+								stats["key_hits"]++
+							}
+						}
+					}
+				}
+			}
+		}
+	}
+}
+
+func seq(n int) []int {
+	r := make([]int, n)
+	for i := range r {
+		r[i] = i + 1
+	}
+	return r
+}
+
 func main() {
 	if len(os.Args) < 2 {
 		must(fmt.Errorf("usage: memodrv sched|seq ..."))
@@ -637,6 +742,7 @@ func main() {
 	runs := fl.Int("runs", 10, "number of histories (seq)")
 	steps := fl.Int("steps", 300, "operations per history (seq)")
 	faults := fl.Bool("faults", false, "inject failing forwarded reads (seq)")
+	every := fl.Int("every", 1, "keys: keep one argument tuple in N")
 	statsOut := fl.String("stats", "", "stats json output")
 	must(fl.Parse(os.Args[2:]))
 	var err error
@@ -650,6 +756,8 @@ func main() {
 		runSchedules(*in)
 	case "seq":
 		runSeq(*runs, *steps, *faults)
+	case "keys":
+		runKeys(*every)
 	default:
 		must(fmt.Errorf("unknown mode %q", mode))
 	}
